@@ -1,7 +1,7 @@
 """C20 - separation helper functions close the material balance and meet their targets."""
 import random
 
-from harness import core, par, tlc
+from harness import core, par, replayjob, tlc
 from harness.drivers import separations as dsp
 
 ASSUME = [
@@ -32,7 +32,7 @@ def history(seed, k, n_steps):
         op, a = dsp.random_op(rng, w)
         obs = w.apply(op, a)
         steps.append(dict(op=op, a=a, post=w.project(), obs=obs))
-    return dict(id='P%d' % k, mode='seq', init=init, steps=steps)
+    return dict(id='P%d' % k, mode='seq', init=init, steps=steps, job=[seed, k, n_steps])
 
 
 def run(ctx):
@@ -47,6 +47,7 @@ def run(ctx):
     traces = par.pmap(history, [('%d:%d' % (ctx.seed, k), k, 10) for k in range(150 if quick else 4000)])
     defs, cfgc = dsp.tla_constants()
     stats = dict(ok=0, ops={})
+    jobs_of = {t['id']: t.pop('job') for t in traces}
     todo, n_traces = traces, 0
     cases = []
     while todo:
@@ -67,7 +68,7 @@ def run(ctx):
                 s = t['steps'][x['l'] - 1]
                 pre = t['steps'][x['l'] - 2]['post'] if x['l'] > 1 else t['init']
                 ctx.violation(key_of(s, x['clause']), '%s %r: %s obs=%r pre=%r post=%r' % (s['op'], s['a'], x['clause'], s['obs'], pre['m'], s['post']['m']),
-                              dict(kind='note', detail='re-run the check with the same seed', op=s['op'], a=s['a'], clause=x['clause']))
+                              dict(replayjob.job(history, jobs_of[t['id'].rstrip('c')], t['id']), clause=x['clause']))
                 if t['steps'][x['l']:]:
                     nxt.append(dict(id=t['id'] + 'c', mode='seq', init=s['post'], steps=t['steps'][x['l']:]))
         todo = nxt
@@ -84,6 +85,4 @@ def run(ctx):
 
 
 def replay(ctx, data):
-    print('# C20 violations: re-run ./check C20 with the recorded seed')
-    print(data.get('what', ''))
-    return 1
+    return replayjob.run('C20', data, dict(history=history), 'Separations', dsp.tla_constants())
